@@ -7,6 +7,8 @@ import (
 	"reflect"
 	"sort"
 
+	"github.com/nulab/autog/graph"
+
 	"verifharness/core"
 	"verifharness/gen"
 )
@@ -34,7 +36,7 @@ func smallGraph(r *rand.Rand) (string, [][]string) {
 func fastCell(r *rand.Rand, nodes int, deterministic bool) core.Opts {
 	for {
 		o := randomCell(r)
-		if o.Positioner == 3 && nodes > 12 {
+		if o.Positioner == 3 && nodes > 16 {
 			continue
 		}
 		if deterministic && o.Breaker == 1 {
@@ -221,6 +223,9 @@ func geomGraph(r *rand.Rand) (string, [][]string) {
 	case 4, 5:
 		g := gen.Slack(r)
 		return g.Family, gen.Names(g)
+	case 6:
+		g := gen.Hub(r)
+		return g.Family, gen.Names(g)
 	default:
 		return smallGraph(r)
 	}
@@ -240,6 +245,11 @@ func init() {
 			r := rng("C03", seed, tier, idx)
 			c := &core.Case{Prop: "C03", Tier: tier, Seed: seed, Index: idx}
 			c.Family, c.Edges = geomGraph(r)
+			if r.Intn(8) == 0 {
+				// node names are opaque; an eighth of the cases uses names whose concatenations collide
+				c.Edges = renameEdges(c.Edges, ambiguousNames(r, nodeIDs(c.Edges)))
+				c.Family += "+ambiguous-names"
+			}
 			ids := nodeIDs(c.Edges)
 			o := fastCell(r, len(ids), false)
 			o.Router = []int{4, 1}[r.Intn(2)]
@@ -507,9 +517,9 @@ func init() {
 		Count: counts(20000, 300000),
 		Rule: "graphs from F2-F5, F9, F11 (reversed x long x parallel edges, several components) x all positioners x {straight, polyline, ortho, splines}; " +
 			"oracle: first point = bottom-centre of the endpoint in the upper band, last point = top-centre of the endpoint in the lower band (computed from the returned rectangles), " +
-			"arrowhead end at ToID, points finite; non-trivial = a reversed edge spanning >= 2 bands, or a routed edge in a shifted (non-first) component",
+			"arrowhead end (first point iff ArrowHeadStart) on the top/bottom centre of the ToID node and the other end on that of the FromID node (also when LayerSpacing = 0 makes bands coincide), points finite; non-trivial = a reversed edge spanning >= 2 bands, or a routed edge in a shifted (non-first) component",
 		MinNontrivial: counts(3000, 40000),
-		Required:      []string{"router:straight", "router:polyline", "router:ortho", "router:splines", "reversed_long_edges", "edges_in_shifted_components"},
+		Required:      []string{"router:straight", "router:polyline", "router:ortho", "router:splines", "reversed_long_edges", "edges_in_shifted_components", "edges_between_coinciding_bands"},
 		Gen: func(seed int64, tier string, idx int) *core.Case {
 			r := rng("C05", seed, tier, idx)
 			c := &core.Case{Prop: "C05", Tier: tier, Seed: seed, Index: idx}
@@ -524,7 +534,7 @@ func init() {
 				applySizes(r, &o, ids, r.Intn(sizeModes), c.Regime, 120)
 			}
 			o.NodeSpacing = spacingVal(r, c.Regime, true)
-			o.LayerSpacing = spacingVal(r, c.Regime, false)
+			o.LayerSpacing = spacingVal(r, c.Regime, true)
 			capNS(&o)
 			c.Opts = o
 			return c
@@ -551,7 +561,7 @@ func checkC05(c *core.Case, v *view) Result {
 	router := core.RouterNames[c.Opts.Router]
 	match := matchEdges(c.Edges, v.l)
 	bi := v.bandIndex()
-	revLong, shifted := 0, 0
+	revLong, shifted, sameY := 0, 0, 0
 	firstComp := -1
 	if len(v.ids) > 0 {
 		firstComp = v.comp[v.ids[0]]
@@ -565,9 +575,6 @@ func checkC05(c *core.Case, v *view) Result {
 		}
 		oe := v.l.Edges[match[i]]
 		from, to := v.n(e[0]), v.n(e[1])
-		if from.Y == to.Y {
-			return skipped("C03") // flat edge: a C03 violation, anchors undefined
-		}
 		if len(oe.Points) < 2 {
 			return violated("C05/unrouted/routing="+router, fmt.Sprintf("edge %s has %d points", fmtEdge(oe), len(oe.Points)))
 		}
@@ -575,6 +582,30 @@ func checkC05(c *core.Case, v *view) Result {
 			if !finite(p[0], p[1]) {
 				return violated("C05/non-finite/routing="+router, fmtEdge(oe))
 			}
+		}
+		// the arrowhead end (first point iff ArrowHeadStart) is at the ToID node, the other end at the FromID node: each
+		// end sits on the horizontal centre of its node, on its top or bottom side. This clause needs no notion of "upper".
+		{
+			arrow, tail := oe.Points[len(oe.Points)-1], oe.Points[0]
+			if oe.ArrowHeadStart {
+				arrow, tail = tail, arrow
+			}
+			at := func(p [2]float64, n graph.Node) bool {
+				return v.num.eq(p[0], n.X+n.W/2) && (v.num.eq(p[1], n.Y) || v.num.eq(p[1], n.Y+n.H))
+			}
+			if !at(arrow, to) {
+				return violated("C05/arrow-end-not-at-target/routing="+router, fmt.Sprintf("edge %s: arrowhead end %v (ArrowHeadStart=%v) is not on the top/bottom centre of its ToID node %s", fmtEdge(oe), arrow, oe.ArrowHeadStart, fmtNode(to)))
+			}
+			if !at(tail, from) {
+				return violated("C05/tail-end-not-at-source/routing="+router, fmt.Sprintf("edge %s: tail end %v (ArrowHeadStart=%v) is not on the top/bottom centre of its FromID node %s", fmtEdge(oe), tail, oe.ArrowHeadStart, fmtNode(from)))
+			}
+		}
+		if from.Y == to.Y {
+			if c.Opts.LayerSpacingValue() > 0 {
+				return skipped("C03") // flat edge: a C03 violation, upper/lower undefined
+			}
+			sameY++
+			continue // LayerSpacing 0 and a zero-height band: bands coincide legitimately, "upper" is undefined
 		}
 		upper, lower := from, to
 		toIsUpper := false
@@ -610,6 +641,7 @@ func checkC05(c *core.Case, v *view) Result {
 	r.stat("router:"+router, 1)
 	r.stat("reversed_long_edges", revLong)
 	r.stat("edges_in_shifted_components", shifted)
+	r.stat("edges_between_coinciding_bands", sameY)
 	return r
 }
 
@@ -628,10 +660,22 @@ func init() {
 		Gen: func(seed int64, tier string, idx int) *core.Case {
 			r := rng("C06", seed, tier, idx)
 			c := &core.Case{Prop: "C06", Tier: tier, Seed: seed, Index: idx}
-			switch r.Intn(4) {
+			switch r.Intn(6) {
 			case 0, 1:
 				g := gen.Skip(r, 3+r.Intn(6), 1, 4, 0.35, 2+r.Intn(6), 2+r.Intn(5))
 				c.Family, c.Edges = g.Family, gen.Names(g)
+			case 2, 3:
+				// several components with long edges: a bend of one component must not end up inside a node of the next
+				var parts []gen.IG
+				for k := 2 + r.Intn(2); k > 0; k-- {
+					if r.Intn(3) == 0 {
+						parts = append(parts, gen.DAG(r, 3+r.Intn(5), 0.5))
+					} else {
+						parts = append(parts, gen.Skip(r, 3+r.Intn(4), 1, 3, 0.4, 2+r.Intn(5), 2+r.Intn(3)))
+					}
+				}
+				g, _ := gen.Union(r, parts)
+				c.Family, c.Edges = "F5-union(long-edges)", gen.Names(g)
 			default:
 				c.Family, c.Edges = geomGraph(r)
 			}
@@ -902,6 +946,10 @@ func init() {
 					return violated("C07/run-to-run/"+diffClass(first, enc),
 						fmt.Sprintf("run 1 and run %d of the same call differ (%s):\n--- run 1\n%s--- run %d\n%s", i+1, diffClass(first, enc), first, i+1, enc))
 				}
+			}
+			// a result handed to the caller must not change when later calls are made (no aliasing with internal state)
+			if first != "" && core.Canon(firstLayout.Layout) != first {
+				return violated("C07/earlier-result-modified", fmt.Sprintf("the layout returned by the first call changed while later calls ran:\n--- as returned\n%s--- now\n%s", clip(first, 800), clip(core.Canon(firstLayout.Layout), 800)))
 			}
 			if panics == reps {
 				return skipped("noreturn")
